@@ -237,6 +237,13 @@ const (
 
 const blockTimeout = 3 * time.Millisecond
 
+// slowTimer: the time-out for a release that is not expected to block (reused timer would be nicer; these are rare).
+func slowTimer() <-chan time.Time { return time.After(40 * time.Millisecond) }
+
+// unannounced[op]: a thread released at op was once found blocked in a Lock() it had not announced (a lock taken
+// in the middle of a method); later releases at op use the short time-out.
+var unannounced = map[string]bool{}
+
 // Run executes the program (one func per thread) under the schedule prefix.
 func Run(prog []func(), prefix []int, mode Mode, rng *rand.Rand, maxPreempt int, setup func(*Exec)) *Exec {
 	globalMu.Lock()
@@ -397,16 +404,24 @@ func Run(prog []func(), prefix []int, mode Mode, rng *rand.Rand, maxPreempt int,
 		t.gate <- struct{}{}
 		// wait for t (and for threads that were blocked in real locks and got through meanwhile)
 		speculative := cspec[idx]
-		risky := speculative || (t.pending != nil && (!reallyFreeCached(t) || !sureFree(t.pending)))
+		truthfulMu.Lock()
+		slowOp := unannounced[op]
+		truthfulMu.Unlock()
+		risky := speculative || slowOp || (t.pending != nil && (!reallyFreeCached(t) || !sureFree(t.pending)))
 		var deadline <-chan time.Time
 		if risky {
 			deadline = time.After(10 * time.Second)
 		}
 	wait:
 		for {
+			// a released thread normally reports back within microseconds.  If it does not, it is blocked inside a
+			// real Lock(): one it announced (risky release: short time-out) or one that has no scheduling point
+			// (long time-out).  It is then marked blocked and the others go on; it reports when it gets through.
 			var tmo <-chan time.Time
 			if risky {
 				tmo = time.After(blockTimeout)
+			} else {
+				tmo = slowTimer()
 			}
 			select {
 			case id := <-e.sig:
@@ -428,6 +443,11 @@ func Run(prog []func(), prefix []int, mode Mode, rng *rand.Rand, maxPreempt int,
 				if speculative {
 					truthfulMu.Lock()
 					truthful[op] = 1
+					truthfulMu.Unlock()
+				}
+				if !risky {
+					truthfulMu.Lock()
+					unannounced[op] = true
 					truthfulMu.Unlock()
 				}
 				e.multi.Store(true)
